@@ -313,6 +313,13 @@ def _fit_cases(ctx):
                 0.3 * (1 + float(rng.uniform(-0.1, 0.1))), pa + float(rng.uniform(-0.1, 0.1)), 10.0]
         out.append({'kind': 'fit', 'shape': shape, 'x0': x0, 'y0': y0, 'eps': 0.3, 'pa': pa, 'law': 'gauss',
                     'init': init, 'opts': {'minsma': 3.0, 'maxsma': 30.0, 'step': 0.1}, 'model': True})
+    # the sector-area integration modes in every tier, out to radii where a sector holds several
+    # pixels (inner isophotes fall back to bilinear sampling)
+    for mode_, padeg in (('mean', 40), ('median', 125)):
+        x0, y0, pa = 63.3, 58.7, math.radians(padeg)
+        out.append({'kind': 'fit', 'shape': [121, 131], 'x0': x0, 'y0': y0, 'eps': 0.3, 'pa': pa, 'law': 'gauss',
+                    'init': [x0 + 0.4, y0 - 0.3, 0.32, pa + 0.05, 20.0],
+                    'opts': {'minsma': 15.0, 'maxsma': 45.0, 'step': 0.15, 'integrmode': mode_}, 'model': False})
     # fix_* fits
     fixes = [{'fix_center': True}, {'fix_pa': True}, {'fix_eps': True},
              # the outward pass ends in non-iterative extraction (sma > maxrit): the inward pass
